@@ -48,8 +48,9 @@ def _op_strategy(kinds_weighted, n_variants, allow_pm_false=False):
             return st.builds(lambda s, m, w: {'op': 'inspect', 'slot': s, 'member': m, 'what': w}, slot, member,
                              st.sampled_from(history.INSPECTIONS))
         if kind == 'force_task':
-            return st.builds(lambda s, m, t, d: {'op': 'force_task', 'slot': s, 'member': m, 'task': t, 'delete': d},
-                             slot, member, task, st.booleans())
+            return st.builds(lambda s, m, t, d, r: dict({'op': 'force_task', 'slot': s, 'member': m, 'task': t, 'delete': d},
+                                                        **({'reset_only': True} if r else {})),
+                             slot, member, task, st.booleans(), st.integers(0, 4).map(lambda x: x == 0))
         if kind == 'force_chain':
             return st.builds(lambda s, m, ts, r, d, how, tm: {'op': 'force_chain', 'slot': s, 'member': m, 'tasks': ts,
                                                              'recompute': r, 'delete': d, 'as': how, 'through_multi': tm},
@@ -60,6 +61,9 @@ def _op_strategy(kinds_weighted, n_variants, allow_pm_false=False):
                              st.sampled_from(['error', 'error', 'interrupt', 'save', 'mistyped']))
         if kind == 'restart':
             return st.just({'op': 'restart'})
+        if kind == 'loglevel':
+            return st.builds(lambda s, m, t, lv: {'op': 'loglevel', 'slot': s, 'member': m, 'task': t, 'level': lv},
+                             slot, member, task, st.sampled_from(['WARNING', 'ERROR', 'CRITICAL', 'INFO', 'DEBUG']))
         raise ValueError(kind)
 
     pool = []
